@@ -642,3 +642,8 @@ CHECK = Check(
         "cbor/msgpack serializers and the trio backend cannot be imported offline",
     ],
 )
+
+# thorough tier: the same strategy and oracle driven by the coverage-guided engine (pbt/covfuzz.py)
+from ..covfuzz import cov_layer  # noqa: E402
+
+CHECK.layers.append(cov_layer("C05", CHECK.layer("protocol"), runs=8000, time_s=100))
